@@ -157,6 +157,8 @@ def fd_key(op, why):
         return "abi:sysv-mmx"
     if 44 in types:
         return "abi:float80"
+    if fam == "x86-32" and cc in (2, 4) and any(t in (40, 41) for t in types):
+        return "abi:x86-32-fastcall-int64"
     return "abi:%s:%s" % (fam, why.split()[1] if len(why.split()) > 1 else "?")
 
 
